@@ -112,6 +112,25 @@ def gen(chk, tier):
         cuts = [(nonce, aad, ct[:len(ct) - d]) for d in range(1, ts + 2) if len(ct) - d >= 0]
         opens("truncated", key_, ts, cuts if not q else cuts[::3] + cuts[-2:])
         opens("extended", key_, ts, [(nonce, aad, ct + [0]), (nonce, aad, ct + rb(rng, 16)), (nonce, aad, [0] + ct)])
+    # sessions: one AEAD object over messages of different shapes, authentic and forged interleaved; forged
+    # messages that carry the (valid) tag or the whole tail of the PREVIOUS message; the authentic message again
+    # after a refused one (anything an Open leaves behind must not influence the next verdict)
+    same = [(it, ct) for (it, ct) in zip(items, sealed) if it[4] == 16 and len(it[1]) == 12]
+    for si in range(4 if q else 60):
+        pick = [rng.choice(same) for _ in range(5 if q else 8)]
+        cases, prev = [], None
+        for (key_, nonce, aad, pt, ts), ct in pick:
+            L = len(pt)
+            cases.append((nonce, aad, ct))
+            if prev is not None:
+                pct, pL = prev
+                cases.append((nonce, aad, ct[:L] + pct[pL:]))                   # body of this, tag of the previous message
+                if pL >= L:
+                    cases.append((nonce, aad, pct[:L] + ct[L:]))                # body of the previous, tag of this
+            cases.append((nonce, aad, flip(ct, rng.randrange(8 * len(ct)))))
+            cases.append((nonce, aad, ct))
+            prev = (ct, L)
+        opens("session_mixed", key, 16, cases)
     # every byte string shorter than the tag is refused; tag of a larger size truncated
     for ts in (12, 13, 14, 15, 16):
         opens("shorter_than_tag", key, ts, [(rb(rng, 12), [], rb(rng, n)) for n in range(0, ts)])
